@@ -568,6 +568,7 @@ func c05IndependentMatching(r *core.Run) {
 // opened database, a hash of the content, or a random value; the clock alone repeats within a second.
 func c05IDFresh(r *core.Run) {
 	p := r.P
+	r.Explain += " (IDFRESH) a signature ID generated by the index command includes a value that changes per indexed function and a value read from the opened database (or content-derived / random): two index runs within one second must not reuse IDs, because adding an existing ID is an update that removes the earlier signature's index entries."
 	n := 0
 	for _, fn := range p.FuncsIn("internal/cli") {
 		core.InstrsOf(fn, func(in ssa.Instruction) {
